@@ -22,7 +22,10 @@
 From Coq Require Import ZArith NArith List Bool Arith Permutation.
 From CL Require Import Base.Sx Base.Res Base.Str Model.AddRemove Model.Compare
   Proofs.AddRemoveProofs Proofs.CompareSpec Proofs.CompareProofs Proofs.CompareKeys
-  Model.CountWords Proofs.CountWordsProofs Generated.C03Facts.
+  Model.CountWords Proofs.CountWordsProofs Generated.C03Facts
+  Model.Entry Model.Parse Model.ParseFormats Model.Unescape Model.CompareText
+  Proofs.C02Props Proofs.C02Roundtrip Proofs.C02BlocksRx Proofs.C02BlocksVal Proofs.C02Blocks
+  Proofs.C02BlocksJunkRx Proofs.C02BlocksJunk Proofs.CompareFlat Proofs.CompareTextProofs.
 Import ListNotations.
 Local Open Scope nat_scope.
 
@@ -222,6 +225,139 @@ Example C03_example_count_words :
        [97; 32; 38; 97; 109; 112; 59; 32; 98]]
   = [Ok 2; Ok 2; Ok 2; Ok 1; Ok 3; Ok 1; Ok 3].
 Proof. vm_compute. reflexivity. Qed.
+
+(* ---- END TO END for .properties: text x text -> report ---------------------------------
+   [compare_properties j0 flt chk merge ref_text l10n_text] (Model/CompareText.v) is the whole
+   pipeline on the two TEXTS: the parser model (C01/C02), PropertiesEntity.val
+   (escape.sub(unescape, raw_val)), Entry.count_words, Junk.key/val with the junkid counter
+   threaded through both parses ([j0] = its value before), then the comparison.  Nothing is
+   supplied from outside except the checker [chk] (any function; the counters do not depend
+   on it) and [merge].
+
+   The reference is the text of a legal block list [bsR] (Proofs/C02Blocks.v: entities with
+   attached comments, continuation lines, standalone comments, white space); the localization
+   likewise, without or with ONE garbage region (Proofs/C02BlocksJunk.v).  [lR], [lL] are the
+   lists of (KS key, unescaped value) of their records, where every raw value follows the
+   token grammar of C02_unescape_properties:
+     tokenized r kv := exists ts, toks_ok ts = true /\ raw value of r = render_toks ts /\
+                                  kv = (KS (key of r), meaning_toks ts)
+   Keys do not repeat within a file (with repeats the general theorems above apply).  Then,
+   with nothing filtered, the comparison returns normally and
+     missings = missing_keys lR lL      the reference keys absent from the localization,
+                                          IN REFERENCE ORDER (filter over the reference keys)
+     the stats dictionary = flat_stats .. lR lL =
+       [|missing|; words missing; 0; |obsolete|; |changed|; words changed;
+        |unchanged|; words unchanged; |key bindings|]
+       obsolete  = localization keys absent from the reference
+       shared keys: a key binding iff py_keyname (contains key/Key, C03_key_binding), else
+       unchanged iff the two UNESCAPED values are equal (str_eqb), else changed
+       words     = sums of wdf (= count_words, C03_count_words_total) of the REFERENCE values
+     junk errors: none without garbage; with the garbage region at offset p exactly ONE,
+       for the Junk entity that starts at p and whose text is the region
+     and, when the checker is silent, the observer's summary is
+       [errors = 0 resp. 1; warnings = 0] ++ the stats. *)
+Theorem C03_end_to_end_properties :
+  forall (chk : @cent pykey str -> @cent pykey str -> list finding) (merge : bool) (j0 : nat)
+         (bsR bsL : list block) (lR lL : list (pykey * str)),
+  Forall legal_block bsR -> adjacent_ok bsR -> Forall2 tokenized (records_of bsR) lR ->
+  Forall legal_block bsL -> adjacent_ok bsL -> Forall2 tokenized (records_of bsL) lL ->
+  NoDup (lkeys lR) -> NoDup (lkeys lL) ->
+  exists r,
+    compare_properties j0 (fun _ => VError) chk merge (file_text bsR) (file_text bsL) = Ok r /\
+    (a_missings r = missing_keys pykey_eqb lR lL /\
+     stats_fields (a_stats r) = flat_stats pykey_eqb str_eqb py_keyname wdf lR lL) /\
+    filter (@is_njunk pykey) (a_notes r) = [] /\
+    ((forall a b, chk a b = []) ->
+     summary (fun _ => VError) r = 0 :: 0 :: flat_stats pykey_eqb str_eqb py_keyname wdf lR lL).
+Proof.
+  intros chk merge j0 bsR bsL lR lL H1 H2 H3 H4 H5 H6 H7 H8.
+  exact (end_to_end_properties chk merge j0 bsR lR lL H1 H2 H3 H7 H8 bsL H4 H5 H6).
+Qed.
+
+Theorem C03_end_to_end_properties_junk :
+  forall (chk : @cent pykey str -> @cent pykey str -> list finding) (merge : bool) (j0 : nat)
+         (bsR bs1 : list block) (gl : list str) (bs2 : list block) (lR lL : list (pykey * str)),
+  Forall legal_block bsR -> adjacent_ok bsR -> Forall2 tokenized (records_of bsR) lR ->
+  Forall legal_block bs1 -> legal_garbage gl = true -> Forall legal_block bs2 ->
+  jadjacent_ok (with_garbage bs1 gl bs2) ->
+  Forall2 tokenized (records_of bs1 ++ records_of bs2) lL ->
+  NoDup (lkeys lR) -> NoDup (lkeys lL) ->
+  let textL := file_text bs1 ++ gtext gl ++ file_text bs2 in
+  let p := length (file_text bs1) in
+  (* the generated key of the Junk entity is no key of either file *)
+  let jk := KS (junk_key (S j0) (p, p + length (gtext gl))) in
+  ~ In jk (lkeys lR) -> ~ In jk (lkeys lL) ->
+  exists r,
+    compare_properties j0 (fun _ => VError) chk merge (file_text bsR) textL = Ok r /\
+    (a_missings r = missing_keys pykey_eqb lR lL /\
+     stats_fields (a_stats r) = flat_stats pykey_eqb str_eqb py_keyname wdf lR lL) /\
+    filter (@is_njunk pykey) (a_notes r) = [NJunk (Z.of_nat p)] /\
+    slice textL p (p + length (gtext gl)) = gtext gl /\
+    ((forall a b, chk a b = []) ->
+     summary (fun _ => VError) r = 1 :: 0 :: flat_stats pykey_eqb str_eqb py_keyname wdf lR lL).
+Proof.
+  intros chk merge j0 bsR bs1 gl bs2 lR lL H1 H2 H3 H4 H5 H6 H7 H8 H9 H10.
+  exact (end_to_end_properties_junk chk merge j0 bsR lR lL H1 H2 H3 H9 H10 bs1 gl bs2 H4 H5 H6 H7 H8).
+Qed.
+
+(* reference   a=one two / okey=x / # note + b=tres<br/>vier / d=qA
+   localization  a=uno / [garbage "garb"] / d=qA / c=v          (offsets: garbage at 6)
+   the premises hold, and the kernel evaluates the pipeline on the two texts to the report
+   the theorem predicts: okey and b missing (1 + 2 words), c obsolete, a changed (2 words),
+   d unchanged (qA = qA after unescaping, 1 word), one junk error at offset 6 *)
+Definition e2e_s (l : list nat) : str := map N.of_nat l.
+Definition e2e_ent (cs : list cline) (k v : list nat) : block :=
+  BEntity cs (e2e_s k) [] 61%N [] [] (e2e_s v) true.
+Definition e2e_ref : list block :=
+  [e2e_ent [] [97] [111; 110; 101; 32; 116; 119; 111];
+   e2e_ent [] [111; 107; 101; 121] [120];
+   e2e_ent [(35%N, e2e_s [32; 110; 111; 116; 101])] [98] [116; 114; 101; 115; 60; 98; 114; 47; 62; 118; 105; 101; 114];
+   e2e_ent [] [100] [113; 92; 117; 48; 48; 52; 49]].
+Definition e2e_l1 : list block := [e2e_ent [] [97] [117; 110; 111]].
+Definition e2e_gl : list str := [e2e_s [103; 97; 114; 98]].
+Definition e2e_l2 : list block := [e2e_ent [] [100] [113; 65]; e2e_ent [] [99] [118]].
+Definition e2e_k (l : list nat) : pykey := KS (e2e_s l).
+Definition e2e_lR : list (pykey * str) :=
+  [(e2e_k [97], e2e_s [111; 110; 101; 32; 116; 119; 111]); (e2e_k [111; 107; 101; 121], e2e_s [120]);
+   (e2e_k [98], e2e_s [116; 114; 101; 115; 60; 98; 114; 47; 62; 118; 105; 101; 114]);
+   (e2e_k [100], e2e_s [113; 65])].
+Definition e2e_lL : list (pykey * str) :=
+  [(e2e_k [97], e2e_s [117; 110; 111]); (e2e_k [100], e2e_s [113; 65]); (e2e_k [99], e2e_s [118])].
+
+Example C03_example_end_to_end :
+  (Forall legal_block e2e_ref /\ adjacent_ok e2e_ref /\ Forall2 tokenized (records_of e2e_ref) e2e_lR) /\
+  (Forall legal_block e2e_l1 /\ legal_garbage e2e_gl = true /\ Forall legal_block e2e_l2 /\
+   jadjacent_ok (with_garbage e2e_l1 e2e_gl e2e_l2) /\
+   Forall2 tokenized (records_of e2e_l1 ++ records_of e2e_l2) e2e_lL) /\
+  (NoDup (lkeys e2e_lR) /\ NoDup (lkeys e2e_lL)) /\
+  length (file_text e2e_l1) = 6 /\
+  missing_keys pykey_eqb e2e_lR e2e_lL = [e2e_k [111; 107; 101; 121]; e2e_k [98]] /\
+  flat_stats pykey_eqb str_eqb py_keyname wdf e2e_lR e2e_lL = [2; 3; 0; 1; 1; 2; 1; 1; 0] /\
+  match compare_properties 0 (fun _ => VError) (fun _ _ => []) true (file_text e2e_ref)
+                           (file_text e2e_l1 ++ gtext e2e_gl ++ file_text e2e_l2) with
+  | Ok r => a_missings r = [e2e_k [111; 107; 101; 121]; e2e_k [98]] /\
+            summary (fun _ => VError) r = [1; 0; 2; 3; 0; 1; 1; 2; 1; 1; 0] /\
+            filter (@is_njunk pykey) (a_notes r) = [NJunk 6%Z] /\ a_skips r = [6%Z]
+  | Raise _ => False
+  end.
+Proof.
+  assert (Htok : forall k v raw ts, toks_ok ts = true -> raw = render_toks ts -> v = meaning_toks ts ->
+                 forall c, tokenized (k, raw, c) (KS k, v)).
+  { intros k v raw ts H1 H2 H3 c. exists ts. subst. auto. }
+  split; [split; [repeat constructor|split; [vm_compute; reflexivity|]]|].
+  { repeat constructor.
+    - apply (Htok _ _ _ (map TPlain (e2e_s [111; 110; 101; 32; 116; 119; 111]))); reflexivity.
+    - apply (Htok _ _ _ (map TPlain (e2e_s [120]))); reflexivity.
+    - apply (Htok _ _ _ (map TPlain (e2e_s [116; 114; 101; 115; 60; 98; 114; 47; 62; 118; 105; 101; 114]))); reflexivity.
+    - apply (Htok _ _ _ [TPlain 113%N; TUni (e2e_s [48; 48; 52; 49])]); reflexivity. }
+  split; [split; [repeat constructor|split; [reflexivity|split; [repeat constructor|split; [vm_compute; reflexivity|]]]]|].
+  { repeat constructor.
+    - apply (Htok _ _ _ (map TPlain (e2e_s [117; 110; 111]))); reflexivity.
+    - apply (Htok _ _ _ (map TPlain (e2e_s [113; 65]))); reflexivity.
+    - apply (Htok _ _ _ (map TPlain (e2e_s [118]))); reflexivity. }
+  split; [split; repeat constructor; cbn; intuition discriminate|].
+  vm_compute. repeat split; reflexivity.
+Qed.
 
 (* the full "never raises" statement is false of the faithful model: a
    localized key equal to the generated key of a reference Junk *)
